@@ -411,6 +411,17 @@ func genValue(r *core.Rand, cfg *Cfg) uint64 {
 }
 
 func genArg(r *core.Rand, cfg *Cfg, depth int) Arg {
+	if depth == 0 && cfg.MaxDepth >= 2 && r.Chance(1, 40) {
+		// a chain of aggregates down to the deepest level the runtime prints
+		a := Arg{Value: genValue(r, cfg)}
+		for d := 0; d < cfg.MaxDepth; d++ {
+			a = Arg{Agg: true, Fields: []Arg{a}}
+			if r.Chance(1, 3) {
+				a.Fields = append(a.Fields, Arg{Value: genValue(r, cfg)})
+			}
+		}
+		return a
+	}
 	k := r.Intn(20)
 	switch {
 	case k == 0:
